@@ -104,9 +104,9 @@ class Run:
         self.probes = Probes()
         ctx = {'p': self.probes.p, 'g': self.probes.g, 'c': self.probes.c, 'tick': self.probes.tick,
                'dg': self.probes.dg, 'dc': self.probes.dc, 'NAMES': tuple(names[i] for i in sorted(names))}
-        if device:      # an object of the environment that can be neither copied deeply nor pickled (a device handle)
-            import threading
-            ctx['dev'] = threading.Lock()
+        if device:      # an object of the environment that can be copied but neither deep-copied nor pickled
+            from probes import Device
+            ctx['dev'] = Device()
         self.base = epoch       # the run starts at a large absolute time (float resolution, tolerances)
         if epoch:
             from sismic.clock import SimulatedClock
